@@ -68,6 +68,7 @@ type Options struct {
 	Callers  int  // runtime goroutines per run
 	Requests int  // requests per caller
 	Updates  bool // plugins issue unsolicited updates
+	SlowUpd  bool // with Updates: the runtime's callback takes longer than the request timeout for some of them, and some of the plugins that asked are gone before it returns
 	Leave    bool // some plugins stop while requests are in flight
 	Vetoes   bool // handlers sometimes fail a request deliberately
 	NoBlocks bool // negative self-test: the runtime forgets the sync blocks
@@ -355,10 +356,18 @@ func (s *session) rawHandlers(full string) *rawpeer.Handlers {
 	}
 }
 
-// update issues one unsolicited update from plugin p and logs call and return (with a watchdog)
-func (s *session) update(p *rig.Plugin, tag string, i int) {
+const slowTimeout = 700 * time.Millisecond
+
+// update issues one unsolicited update from plugin p and logs call and return (with a watchdog); it reports whether
+// the plugin stopped itself while the update was under way (it issues nothing afterwards)
+func (s *session) update(p *rig.Plugin, tag string, i int) bool {
 	full := p.FullName()
 	kind := []string{"ok", "part", "err"}[s.rnd(3)]
+	gone := false
+	if s.o.SlowUpd && tag == "u" && s.rnd(2) == 0 {
+		kind = "slow-" + []string{"part", "err"}[s.rnd(2)]
+		gone = s.rnd(2) == 0
+	}
 	uid := fmt.Sprintf("upd%d-%s-%s%d-%s", s.run, p.Name, tag, i, kind)
 	us := []*api.ContainerUpdate{{ContainerId: uid}, {ContainerId: uid + "/2"}}
 	us[0].SetLinuxCPUShares(uint64(100 + i))
@@ -373,7 +382,19 @@ func (s *session) update(p *rig.Plugin, tag string, i int) {
 			us = []*api.ContainerUpdate{}
 		}
 	}
+	if strings.Contains(uid, "-empty-") {
+		gone = false
+	}
 	s.ev("upd.call", "p", full, "uid", uid, "ids", ids)
+	if gone {
+		// the plugin goes away while the runtime's callback is still working on its update: the callback finishes
+		// under the lock all the same; what the plugin is told is its own affair (gone: not compared)
+		go func() {
+			time.Sleep(300 * time.Millisecond)
+			s.ev("leaving", "p", full)
+			p.Stub.Stop()
+		}()
+	}
 	type res struct {
 		failed []*api.ContainerUpdate
 		err    error
@@ -393,10 +414,14 @@ func (s *session) update(p *rig.Plugin, tag string, i int) {
 		if x.err != nil {
 			et = x.err.Error()
 		}
-		s.ev("upd.ret", "p", full, "uid", uid, "ids", ids, "failed", fids, "err", x.err != nil, "errtext", et, "hung", false)
-	case <-time.After(4 * time.Second):
-		s.ev("upd.ret", "p", full, "uid", uid, "ids", ids, "failed", []string{}, "err", true, "errtext", "watchdog: update did not return", "hung", true)
+		s.ev("upd.ret", "p", full, "uid", uid, "ids", ids, "failed", fids, "err", x.err != nil, "errtext", et, "hung", false, "gone", gone)
+	case <-time.After(4*time.Second + 4*slowTimeout):
+		s.ev("upd.ret", "p", full, "uid", uid, "ids", ids, "failed", []string{}, "err", true, "errtext", "watchdog: update did not return", "hung", true, "gone", gone)
 	}
+	if gone {
+		time.Sleep(slowTimeout + 700*time.Millisecond) // the callback has returned before the run may end
+	}
+	return gone
 }
 
 func tagsOfAdjust(a *api.ContainerAdjustment) []string {
@@ -568,7 +593,24 @@ func (s *session) oneRun(w *rec.Writer) error {
 	s.cfgUpd = sync.Map{}
 	o := s.o
 	s.ev("Begin", "plugins", o.Plugins, "callers", o.Callers, "timeout_ms", 2000)
+	if o.SlowUpd {
+		// the stubs learn the request timeout when they are configured; an unsolicited update is not a request to a
+		// plugin and has no deadline of its own
+		adaptation.SetPluginRequestTimeout(slowTimeout)
+		defer adaptation.SetPluginRequestTimeout(adaptation.DefaultPluginRequestTimeout)
+	}
+	// every other run the runtime holds a sync block from before Start() until a little into the run: a block is a
+	// block whenever it was taken - nobody is synchronized while it is held
+	var early *adaptation.PluginSyncBlock
+	earlyID := fmt.Sprintf("early%d", s.run)
+	if s.run%2 == 0 && !o.NoBlocks {
+		rig.BeforeStart = func(ad *adaptation.Adaptation) {
+			early = ad.BlockPluginSync()
+			s.ev("block.acquired", "c", 0, "req", earlyID)
+		}
+	}
 	r, err := rig.New()
+	rig.BeforeStart = nil
 	if err != nil {
 		return err
 	}
@@ -591,6 +633,9 @@ func (s *session) oneRun(w *rec.Writer) error {
 		}
 		s.ev("updatefn.enter", "uid", uid, "ids", ids)
 		s.perturb()
+		if strings.Contains(uid, "-slow-") {
+			time.Sleep(slowTimeout + 400*time.Millisecond)
+		}
 		umu.Lock()
 		updSeen[uid]++
 		umu.Unlock()
@@ -632,6 +677,15 @@ func (s *session) oneRun(w *rec.Writer) error {
 		}
 	}
 	var wg sync.WaitGroup
+	if early != nil {
+		wg.Add(1)
+		go func() {
+			defer wg.Done()
+			time.Sleep(time.Duration(5+s.rnd(15)) * time.Millisecond)
+			s.ev("block.releasing", "c", 0, "req", earlyID)
+			early.Unblock()
+		}()
+	}
 	started := []string{}
 	var stmu sync.Mutex
 	var raws []*rawpeer.Plugin
@@ -675,7 +729,9 @@ func (s *session) oneRun(w *rec.Writer) error {
 		if o.Updates && s.rnd(2) == 0 {
 			nupd = 1 + s.rnd(2)
 		}
-		if o.Updates && s.rnd(4) == 0 {
+		// (not next to slow callbacks: an update issued from inside Configure that queues behind one makes Configure
+		// itself miss the request timeout, and the plugin is rightly dropped)
+		if o.Updates && !o.SlowUpd && s.rnd(4) == 0 {
 			s.cfgUpd.Store(full, true)
 		}
 		wg.Add(1)
@@ -693,7 +749,9 @@ func (s *session) oneRun(w *rec.Writer) error {
 			stmu.Unlock()
 			for i := 0; i < nupd; i++ {
 				time.Sleep(time.Duration(s.rnd(1500)) * time.Microsecond)
-				s.update(p, "u", i)
+				if s.update(p, "u", i) {
+					return
+				}
 			}
 			if leave {
 				time.Sleep(leaveAfter)
